@@ -780,6 +780,7 @@ def explore(ctx, scenarios, pairs, prop_filter=None, stream="FileSink.step"):
             execs.append((sc, (k,), execute(sc, (k,))))
         if pairs:
             cap = pairs if isinstance(pairs, int) and not isinstance(pairs, bool) else None
+            # the second fault may hit a call that only exists after the first one (up to 3 extra calls)
             todo = [(a, b) for a in range(n) for b in range(a + 1, n + 3)]
             if cap is not None and len(todo) > cap:
                 todo = ctx.rng.fork("pairs%d" % si).shuffle(todo)[:cap]
@@ -857,11 +858,12 @@ def run(ctx):
         ex = execute(item["scenario"], tuple(item.get("faults", [])))
         execs.append((item["scenario"], tuple(item.get("faults", [])), ex))
         ctx.stat("corpus")
-    scs = curated()
-    nrand = ctx.n(6, 60) * (3 if boost else 1)
+    nrand = ctx.n(6, 40) * (3 if boost else 1)
     rng = ctx.rng.fork("scenarios")
-    scs += [gen_scenario(rng) for _ in range(nrand)]
-    execs += explore(ctx, scs, pairs=(False if ctx.quick else 400))
+    # thorough: ALL pairs of faults on the curated scenarios, a sample of 150 pairs on each random one
+    execs += explore(ctx, curated(), pairs=(False if ctx.quick else True))
+    execs += explore(ctx, [gen_scenario(rng) for _ in range(nrand)], pairs=(False if ctx.quick else 150))
+    ctx.exhaustive = False
     for sc, _f, ex in execs[:2]:
         ctx.sample({"scenario": sc, "line": ex.line})
     judge(ctx, execs, drv, PROP)
